@@ -318,4 +318,98 @@ theorem pass3_vinv (edges : Array (PEdge K)) (tris0 : Array (PTri K)) : ∀ (l :
     obtain ⟨s1, h1, h2⟩ := Res.bind_ok _ _ _ h
     exact ih s1 st' h2 (faceStep_vinv edges tris0 st s1 a h1 hi)
 
+/-! ## pass 5: the vertex rows lie inside `faces_adj_to_vertex` / `edges_adj_to_vertex` -/
+
+theorem offsets_first_le (vs : Array PVertex) : ∀ (i : Nat) (v : PVertex), (offsets vs).1[i]? = some v → v.first ≤ (offsets vs).2 := by
+  unfold offsets
+  rw [← Array.foldl_toList]
+  have key : ∀ (l : List PVertex) (acc : Array PVertex × Nat), (∀ (i : Nat) (v : PVertex), acc.1[i]? = some v → v.first ≤ acc.2) →
+      ∀ (i : Nat) (v : PVertex),
+        (l.foldl (fun (acc : Array PVertex × Nat) v => (acc.1.push { first := acc.2, num := v.num }, acc.2 + v.num)) acc).1[i]? = some v →
+        v.first ≤ (l.foldl (fun (acc : Array PVertex × Nat) v => (acc.1.push { first := acc.2, num := v.num }, acc.2 + v.num)) acc).2 := by
+    intro l
+    induction l with
+    | nil => intro acc h; exact h
+    | cons a l ih =>
+      intro acc h
+      rw [List.foldl_cons]
+      apply ih
+      intro i v hv
+      simp only at hv ⊢
+      rw [Array.getElem?_push] at hv
+      split at hv
+      · simp only [Option.some.injEq] at hv; subst hv; simp
+      · have := h i v hv; omega
+  exact key vs.toList (#[], 0) (fun i v hv => by simp at hv)
+
+/-- the rows of the vertex table lie inside the two adjacency arrays, which have the same length -/
+structure FillInv (st : FillState) : Prop where
+  sz : st.fav.size = st.eav.size
+  rows : ∀ (i : Nat) (v : PVertex), st.vs[i]? = some v → v.first + v.num ≤ st.fav.size
+
+theorem fillStep_inv (vaf eaf : Array Nat) (acc : Option FillState × Nat) (f : PFace K)
+    (h : ∀ st, acc.1 = some st → FillInv st) : ∀ st, (fillStep vaf eaf acc f).1 = some st → FillInv st := by
+  intro st hst
+  unfold fillStep at hst
+  simp only at hst
+  cases ha : acc.1 with
+  | none => rw [ha] at hst; simp at hst
+  | some st0 =>
+    rw [ha] at hst
+    simp only [Option.bind_some] at hst
+    split at hst
+    · have key : ∀ (fid : Nat) (l : List Nat) (a : Option FillState), (∀ s, a = some s → FillInv s) → ∀ s,
+          l.foldl (fun (acc' : Option FillState) k => acc'.bind fun st =>
+            match vaf[f.first + k]?, eaf[f.first + k]? with
+            | some vi, some ei =>
+              match st.vs[vi]? with
+              | some v =>
+                if v.first + v.num < st.fav.size then
+                  some { vs := st.vs.set! vi { v with num := v.num + 1 }, fav := st.fav.set! (v.first + v.num) fid, eav := st.eav.set! (v.first + v.num) ei }
+                else Option.none
+              | Option.none => Option.none
+            | _, _ => Option.none) a = some s → FillInv s := by
+        intro fid l
+        induction l with
+        | nil => intro a ha s hs; exact ha s hs
+        | cons k l ih =>
+          intro a ha s hs
+          rw [List.foldl_cons] at hs
+          refine ih _ ?_ s hs
+          intro s1 hs1
+          cases haa : a with
+          | none => rw [haa] at hs1; simp at hs1
+          | some s0 =>
+            rw [haa] at hs1
+            simp only [Option.bind_some] at hs1
+            have i0 := ha s0 haa
+            split at hs1
+            · split at hs1
+              · rename_i v hv
+                split at hs1
+                · rename_i hpos
+                  simp only [Option.some.injEq] at hs1; subst hs1
+                  refine ⟨by simp [i0.sz], ?_⟩
+                  intro i w hw
+                  simp only at hw ⊢
+                  rw [Array.set!_eq_setIfInBounds, Array.getElem?_setIfInBounds] at hw
+                  simp only [Array.set!_eq_setIfInBounds, Array.size_setIfInBounds]
+                  split at hw
+                  · split at hw
+                    · simp only [Option.some.injEq] at hw; subst hw; simp only; omega
+                    · cases hw
+                  · exact i0.rows i w hw
+                · cases hs1
+              · cases hs1
+            · cases hs1
+      exact key acc.2 (List.range f.num) (some st0) (fun s hs => by simp only [Option.some.injEq] at hs; subst hs; exact h st0 ha) st hst
+    · cases hst
+
+theorem fillFold_inv (vaf eaf : Array Nat) : ∀ (l : List (PFace K)) (acc : Option FillState × Nat),
+    (∀ st, acc.1 = some st → FillInv st) → ∀ st, (l.foldl (fillStep vaf eaf) acc).1 = some st → FillInv st := by
+  intro l
+  induction l with
+  | nil => intro acc h; exact h
+  | cons f l ih => intro acc h; rw [List.foldl_cons]; exact ih _ (fillStep_inv vaf eaf acc f h)
+
 end C12
